@@ -175,6 +175,8 @@ pub async fn worker(
 					}
 				})
 				.map(Some)?;
+			// a new watcher has nothing registered yet
+			pathset.clear();
 		}
 
 		// now let's calculate which paths we should add to the watch, and which we should drop:
